@@ -85,6 +85,21 @@ def directed(tier):
                 'close_delay': 3.0, 'jobs': [
                     {'kind': 'map', 'tag': 'fm', 'n': 9, 'chunk': 3, 'dur': 0.05, 'fail_at': 4},
                     {'kind': 'imap_u', 'tag': 'iu', 'n': 5, 'chunk': 1, 'dur': 0.05, 'fail_at': 1}]})
+    # a replacement worker (started after the pool was built) has done work
+    # and everything is finished when close() comes: it must leave at once
+    out.append({'nproc': 1, 'maxtasks': 2, 'threads': True, 'T': 2.0, 'pool_hard': None,
+                'close_delay': 3.0, 'jobs': [{'kind': 'apply', 'tag': 'r%d' % i, 'dur': 0.05}
+                                             for i in range(3)]})
+    out.append({'nproc': 2, 'maxtasks': 3, 'threads': True, 'T': 2.0, 'pool_hard': None,
+                'close_delay': 3.0, 'jobs': [{'kind': 'apply', 'tag': 'r%d' % i, 'dur': 0.05}
+                                             for i in range(8)]})
+    # close() lands while the supervisor is starting several workers
+    for nproc, grow in ((1, 2), (2, 3)):
+        out.append({'nproc': nproc, 'maxtasks': None, 'threads': True, 'T': 2.0, 'pool_hard': None,
+                    'close_delay': 0.1, 'grow_mid_close': grow, 'jobs': [
+                        {'kind': 'apply', 'tag': 'g%d' % i, 'dur': 0.3} for i in range(4)] + [
+                        {'kind': 'map', 'tag': 'gm', 'n': 4, 'chunk': 1, 'dur': 0.2},
+                        {'kind': 'imap', 'tag': 'gi', 'n': 3, 'chunk': 1, 'dur': 0.2}]})
     if tier != 'quick':
         out.append({'nproc': 3, 'maxtasks': None, 'threads': True, 'T': 2.0, 'pool_hard': 60,
                     'close_delay': 0.1, 'jobs': [
@@ -206,6 +221,9 @@ def run_spec(spec, rec):
     if obs['join_wall'] > est + 12.0:
         rec.violation('join_slow', attrs, join_wall=obs['join_wall'], work_estimate=est,
                       worst_stall=obs.get('worst_stall'), params=p)
+    if p.get('grow_mid_close'):
+        rec.count('real:close_during_repopulation' if obs.get('mid_reached')
+                  else 'real:close_during_repopulation_not_reached')
     rec.maxi('max:join_overhead_ms', int(1000 * max(0.0, obs['join_wall'] - est)))
     # 3. nothing left behind
     if obs['workers_after_join']:
